@@ -84,7 +84,7 @@ def group_programs():
 def pointer_programs(tier, rng):
     progs = straightline_pointer_programs(3 if tier == 'thorough' else 2) + group_programs()
     I = lambda v: ('lit', 'int', v)
-    reads = [('ival', 'int'), ('flag', 'bool'), ('sval', 'QString')]
+    reads = [('ival', 'int'), ('flag', 'bool'), ('sval', 'QString'), ('level', 'int')]
     pes = ptr_exprs(3 if tier == 'thorough' else 2)
     for pe in pes:
         for prop, ty in reads:
@@ -222,9 +222,10 @@ class TwoState:
             if not cands:
                 self.problems.append(f'connection to unknown signal {sig}')
                 continue
-            full = max(cands, key=lambda s: len(s.args))
-            if ov != full.args:
-                self.problems.append(f'{sig}: connected overload {ov}, documented rule picks {full.args}')
+            for pn in cls.prop_of_signal(sig):
+                full = cls.notify_signal_of(pn)
+                if full is None or ov != full.args:
+                    self.problems.append(f'{sig}: connected overload {ov}, documented rule picks {full.args if full else None}')
         # setup(): every binding has setup* and update*, all setups before all updates
         calls = hdr.setup_calls
         if calls.count('setup' + gsuffix) != 1 or calls.count('update' + gsuffix) != 1:
